@@ -4,7 +4,9 @@
  * once, exits after a short sleep, or pauses until its owner sends SIGTERM through iv_wait_interest_kill() from
  * a timer.  Whichever thread receives SIGCHLD reaps ALL children (iv_wait_got_sigchld) and posts the status to
  * the interest's owner, so statuses routinely cross threads.  On death the owner unregisters the interest from
- * within its handler and spawns the next child until the time is up.
+ * within its handler and spawns the next child until the time is up.  One spawn in four is "given up": a timer 0-600 us
+ * after the spawn unregisters the interest from outside its handler, while the child may at that very moment be reaped
+ * and marked dead by the SIGCHLD thread (the child is then killed directly and reaped by the library as a stranger).
  */
 #include <iv.h>
 #include <iv_wait.h>
@@ -19,6 +21,7 @@ struct slot {
 	struct thr *t;
 	struct iv_wait_interest wi;
 	struct iv_timer kill_timer;
+	struct iv_timer giveup_timer;
 	int active;
 	int mode;
 };
@@ -30,7 +33,7 @@ struct thr {
 	struct slot s[SLOTS];
 	struct iv_timer stop;
 	int stopping;
-	long n_spawn, n_dead, n_other, n_kill;
+	long n_spawn, n_dead, n_other, n_kill, n_giveup;
 };
 
 static struct thr T[MAXT];
@@ -59,6 +62,24 @@ static void kill_it(void *_s)
 	}
 }
 
+static void give_up(void *_s)
+{
+	struct slot *s = _s;
+	struct thr *t = s->t;
+	pid_t pid = s->wi.pid;
+
+	if (!s->active)
+		return;
+	if (iv_timer_registered(&s->kill_timer))
+		iv_timer_unregister(&s->kill_timer);
+	iv_wait_interest_unregister(&s->wi);
+	kill(pid, SIGKILL);
+	s->active = 0;
+	t->n_giveup++;
+	if (!t->stopping)
+		spawn(s);
+}
+
 static void wait_handler(void *_s, int status, const struct rusage *ru)
 {
 	struct slot *s = _s;
@@ -72,6 +93,8 @@ static void wait_handler(void *_s, int status, const struct rusage *ru)
 	t->n_dead++;
 	if (iv_timer_registered(&s->kill_timer))
 		iv_timer_unregister(&s->kill_timer);
+	if (iv_timer_registered(&s->giveup_timer))
+		iv_timer_unregister(&s->giveup_timer);
 	iv_wait_interest_unregister(&s->wi);
 	s->active = 0;
 	if (!t->stopping)
@@ -90,6 +113,12 @@ static void spawn(struct slot *s)
 		return;
 	s->active = 1;
 	t->n_spawn++;
+	if (tsu_rand(&t->rng) % 4 == 0) {
+		IV_TIMER_INIT(&s->giveup_timer);
+		s->giveup_timer.cookie = s;
+		s->giveup_timer.handler = give_up;
+		tsu_arm(&s->giveup_timer, (tsu_rand(&t->rng) % 600) * 1000LL);
+	}
 	if (s->mode == 2) {
 		IV_TIMER_INIT(&s->kill_timer);
 		s->kill_timer.cookie = s;
@@ -120,6 +149,7 @@ static void *thread_main(void *_t)
 	for (k = 0; k < SLOTS; k++) {
 		t->s[k].t = t;
 		IV_TIMER_INIT(&t->s[k].kill_timer);
+		IV_TIMER_INIT(&t->s[k].giveup_timer);
 		spawn(&t->s[k]);
 	}
 
@@ -131,7 +161,7 @@ static void *thread_main(void *_t)
 int main(int argc, char **argv)
 {
 	int i;
-	long sp = 0, dead = 0, kills = 0;
+	long sp = 0, dead = 0, kills = 0, gu = 0;
 
 	tsu_args(argc, argv, 3, 800);
 	iv_init();
@@ -145,8 +175,8 @@ int main(int argc, char **argv)
 	for (i = 1; i < g_nthr; i++)
 		pthread_join(T[i].tid, NULL);
 	for (i = 0; i < g_nthr; i++) {
-		sp += T[i].n_spawn; dead += T[i].n_dead; kills += T[i].n_kill;
+		sp += T[i].n_spawn; dead += T[i].n_dead; kills += T[i].n_kill; gu += T[i].n_giveup;
 	}
-	printf("STATS prog=wait threads=%d spawned=%ld reaped=%ld killed=%ld\n", g_nthr, sp, dead, kills);
+	printf("STATS prog=wait threads=%d spawned=%ld reaped=%ld killed=%ld givenup=%ld\n", g_nthr, sp, dead, kills, gu);
 	return 0;
 }
